@@ -19,6 +19,8 @@ type check struct {
 	level  string
 	main   func(r *run.Runner)
 	replay func(w *run.Worker, v *run.Viol)
+	// external checks build and run their own driver process (C14)
+	external func(args []string) int
 }
 
 var checks = map[string]*check{}
@@ -37,6 +39,10 @@ func main() {
 	if c == nil {
 		fmt.Fprintf(os.Stderr, "CHECK-ERROR unknown property %s\n", id)
 		os.Exit(2)
+	}
+	if c.external != nil {
+		os.MkdirAll("/verif/replays", 0o755)
+		os.Exit(c.external(os.Args[2:]))
 	}
 	if os.Args[2] == "--replay" {
 		if len(os.Args) < 4 {
